@@ -3,6 +3,9 @@ import DocsModel.Model.Entry
 import DocsModel.Model.Spec
 import DocsModel.Model.Tables
 import DocsModel.Model.QuerySpec
+import DocsModel.Model.Postcard
+import DocsModel.Model.Heads
+import DocsModel.Model.FilterText
 /-!
 Line-protocol driver: one output line per input line. The Rust harness pipes the same operation
 lines it applied to the real crate and compares the two output streams.
@@ -42,6 +45,12 @@ structure World where
   specStores : List (Nat × Spec.Store) := []
   offered : List (Nat × List Entry) := []
   tstores : List (Nat × Tables.T) := []
+  /-- `Store::open_replicas` per store -/
+  openSets : List (Nat × List Bytes) := []
+  /-- successful peer registrations per store, newest first: `(ns, nanos, peer)` (for the MRU specification) -/
+  regs : List (Nat × List (Bytes × Nat × Bytes)) := []
+  /-- capability imports per store since the document was (re-)created: `(ns, kind)` (for the C07 specification) -/
+  imports : List (Nat × List (Bytes × Nat)) := []
 
 namespace World
 
@@ -83,6 +92,54 @@ def parseQuery? : List String → Option Query
     pure { kind, author := ← parseAuthorFilter? au, key := ← parseKeyFilter? kf, limit,
            offset := ← parseNat? off, includeEmpty := ← parseBool? incl, desc := ← parseBool? desc }
   | _ => none
+
+def World.getOpen (w : World) (sid : Nat) : List Bytes := (w.openSets.lookup sid).getD []
+def World.setOpen (w : World) (sid : Nat) (l : List Bytes) : World :=
+  { w with openSets := (sid, l) :: w.openSets.filter (·.1 != sid) }
+
+open Tables in
+/-- policy token: `E:` / `N:` followed by comma separated `p:<hex>` / `x:<hex>` filters -/
+def parsePolicy? (s : String) : Option Policy :=
+  match s.splitOn ":" with
+  | kind :: _ =>
+    let body := (s.drop (kind.length + 1)).toString
+    let fs := if body = "" then some [] else
+      (body.splitOn ",").mapM (fun f =>
+        match f.splitOn "=" with
+        | ["p", h] => (Bytes.ofHex h).map FilterKind.pre
+        | ["x", h] => (Bytes.ofHex h).map FilterKind.exact
+        | _ => none)
+    match kind, fs with
+    | "E", some fs => some (.everythingExcept fs)
+    | "N", some fs => some (.nothingExcept fs)
+    | _, _ => none
+  | _ => none
+
+open Tables in
+def showPolicy (p : Policy) : String :=
+  let showF := fun (f : FilterKind) => match f with
+    | .pre b => "p=" ++ b.toHex
+    | .exact b => "x=" ++ b.toHex
+  match p with
+  | .everythingExcept fs => "E:" ++ ",".intercalate (fs.map showF)
+  | .nothingExcept fs => "N:" ++ ",".intercalate (fs.map showF)
+
+/-- heads token: `author=ts;author=ts` or `-` -/
+def parseHeads? (s : String) : Option Heads.H :=
+  if s = "-" then some [] else
+  (s.splitOn ";").foldlM (fun h item =>
+    match item.splitOn "=" with
+    | [a, ts] => do pure (Heads.insert h (← Bytes.ofHex a) (← parseNat? ts))
+    | _ => none) []
+
+def showHeadsMap (h : Heads.H) : String :=
+  if h.isEmpty then "-" else ";".intercalate (h.map fun (a, ts) => a.toHex ++ "=" ++ toString ts)
+
+def showInsertResult : Tables.InsertResult → String
+  | .inserted n => "inserted " ++ toString n
+  | .notInserted => "notinserted"
+  | .notFound => "err:not-found"
+  | .readOnly => "err:read-only"
 
 def showHeads (hs : List (Bytes × Nat × Bytes)) : String :=
   "heads " ++ toString hs.length ++ " " ++
@@ -148,6 +205,8 @@ def step (w : World) (line : String) : World × String :=
       match w.getT sid with
       | some t =>
         let (t', out) := Tables.importNamespace t ns kind raw
+        let oldImports := (w.imports.lookup sid).getD []
+        let w := { w with imports := (sid, (ns, kind) :: oldImports) :: w.imports.filter (·.1 != sid) }
         (w.setT sid t', match out with | .inserted => "inserted" | .upgraded => "upgraded" | .noChange => "nochange")
       | none => (w, "no-store")
     | _, _, _, _ => (w, "bad-op")
@@ -192,6 +251,258 @@ def step (w : World) (line : String) : World × String :=
       | some t => (w, showHeads (Tables.latestForEachAuthor t ns))
       | none => (w, "no-store")
     | _, _ => (w, "bad-op")
+  -- remote insert through `Store::open_replica` + `insert_remote_entry`
+  | ["tputns", sid, tok] =>
+    match parseNat? sid, parseEntry? tok with
+    | some sid, some e =>
+      match w.getT sid with
+      | some t =>
+        let (t', out) := Tables.remotePut t e
+        (w.setT sid t', showInsertResult out)
+      | none => (w, "no-store")
+    | _, _ => (w, "bad-op")
+  -- local insert / delete: needs the write capability (kind 1)
+  | ["tlocal", sid, tok] =>
+    match parseNat? sid, parseEntry? tok with
+    | some sid, some e =>
+      match w.getT sid with
+      | some t =>
+        let (t', out) := Tables.localPut t e
+        (w.setT sid t', showInsertResult out)
+      | none => (w, "no-store")
+    | _, _ => (w, "bad-op")
+  -- specification of capabilities: a document is writable iff a write capability was ever imported
+  | ["scaps", sid] =>
+    match parseNat? sid with
+    | some sid =>
+      let hist := (w.imports.lookup sid).getD []
+      let docs := (hist.map (·.1)).eraseDups
+      let sorted := docs.toArray.qsort (fun a b => decide (a < b)) |>.toList
+      (w, "namespaces " ++ ";".intercalate (sorted.map fun ns =>
+        ns.toHex ++ "=" ++ (if hist.any (fun h => h.1 == ns && h.2 == 1) then "1" else "2")))
+    | none => (w, "bad-op")
+  | ["swritable", sid, ns] =>
+    match parseNat? sid, Bytes.ofHex ns with
+    | some sid, some ns =>
+      let hist := ((w.imports.lookup sid).getD []).filter (·.1 == ns)
+      (w, if hist.isEmpty then "none" else if hist.any (·.2 == 1) then "1" else "0")
+    | _, _ => (w, "bad-op")
+  | ["tclean", sid, ns] =>
+    match parseNat? sid, Bytes.ofHex ns with
+    | some sid, some ns =>
+      match w.getT sid with
+      | some t =>
+        let dirty : List String :=
+          (if t.records.any (·.ns == ns) then ["records"] else []) ++
+          (if t.byKey.any (fun k => k.1 == ns && (Tables.recGet t.records k.1 k.2.2 k.2.1).isSome) then ["by-key"] else []) ++
+          (if t.latest.any (·.1 == ns) then ["heads"] else []) ++
+          (if t.peers.any (·.1 == ns) then ["peers"] else []) ++
+          (if t.policies.any (·.1 == ns) then ["policy"] else []) ++
+          (if t.namespaces.any (·.1 == ns) then ["capability"] else [])
+        (w, if dirty.isEmpty then "clean" else "dirty:" ++ "+".intercalate dirty)
+      | none => (w, "no-store")
+    | _, _ => (w, "bad-op")
+  -- specification of the useful-peer list: the five most recently registered distinct peers
+  | ["speers", sid, ns] =>
+    match parseNat? sid, Bytes.ofHex ns with
+    | some sid, some ns =>
+      let hist := ((w.regs.lookup sid).getD []).filter (·.1 == ns)   -- newest first
+      let mru := Tables.mruSpec [] (hist.reverse.map (·.2.2))
+      (w, if mru.isEmpty then "none" else "peers " ++ toString mru.length ++ " " ++ ";".intercalate (mru.map Bytes.toHex))
+    | _, _ => (w, "bad-op")
+  | ["shashes", sid] =>
+    match parseNat? sid with
+    | some sid =>
+      match w.getT sid with
+      | some t =>
+        let hs := (t.namespaces.flatMap fun (ns, _, _) => (t.records.filter (·.ns == ns)).map (·.hash.toHex))
+        let sorted := hs.toArray.qsort (· < ·) |>.toList
+        (w, "hashes " ++ toString sorted.length ++ " " ++ ";".intercalate sorted)
+      | none => (w, "no-store")
+    | none => (w, "bad-op")
+  | ["shasnews", sid, ns, heads] =>
+    match parseNat? sid, Bytes.ofHex ns, parseHeads? heads with
+    | some sid, some ns, some theirs =>
+      match w.getT sid with
+      | some t =>
+        let n := (theirs.filter fun (a, ts) =>
+          (t.records.filter (fun e => e.ns == ns && e.author == a)).all (fun e => decide (ts > e.ts))).length
+        (w, "news " ++ toString n)
+      | none => (w, "no-store")
+    | _, _, _ => (w, "bad-op")
+  | ["topen", sid, ns] =>
+    match parseNat? sid, Bytes.ofHex ns with
+    | some sid, some ns =>
+      match w.getT sid with
+      | some t =>
+        match Tables.nsGet t ns with
+        | some (kind, _) => (w.setOpen sid (ns :: (w.getOpen sid).filter (· != ns)), "ok " ++ toString kind)
+        | none => (w, "err:not-found")
+      | none => (w, "no-store")
+    | _, _ => (w, "bad-op")
+  | ["tclose", sid, ns] =>
+    match parseNat? sid, Bytes.ofHex ns with
+    | some sid, some ns => (w.setOpen sid ((w.getOpen sid).filter (· != ns)), "ok")
+    | _, _ => (w, "bad-op")
+  | ["tremove", sid, ns] =>
+    match parseNat? sid, Bytes.ofHex ns with
+    | some sid, some ns =>
+      match w.getT sid with
+      | some t =>
+        if (w.getOpen sid).contains ns then (w, "err:not-closed")
+        else
+          let old := (w.regs.lookup sid).getD []
+          let oldImports := (w.imports.lookup sid).getD []
+          ({ w.setT sid (Tables.removeReplica t ns) with
+             regs := (sid, old.filter (·.1 != ns)) :: w.regs.filter (·.1 != sid),
+             imports := (sid, oldImports.filter (·.1 != ns)) :: w.imports.filter (·.1 != sid) }, "ok")
+      | none => (w, "no-store")
+    | _, _ => (w, "bad-op")
+  | ["tpeer", sid, ns, nanos, peer] =>
+    match parseNat? sid, Bytes.ofHex ns, parseNat? nanos, Bytes.ofHex peer with
+    | some sid, some ns, some nanos, some peer =>
+      match w.getT sid with
+      | some t =>
+        match Tables.registerUsefulPeer t ns nanos peer with
+        | some t' =>
+          let old := (w.regs.lookup sid).getD []
+          ({ w.setT sid t' with regs := (sid, (ns, nanos, peer) :: old) :: w.regs.filter (·.1 != sid) }, "ok")
+        | none => (w, "err:no-document")
+      | none => (w, "no-store")
+    | _, _, _, _ => (w, "bad-op")
+  | ["tpeers", sid, ns] =>
+    match parseNat? sid, Bytes.ofHex ns with
+    | some sid, some ns =>
+      match w.getT sid with
+      | some t =>
+        match Tables.getSyncPeers t ns with
+        | some l => (w, "peers " ++ toString l.length ++ " " ++ ";".intercalate (l.map Bytes.toHex))
+        | none => (w, "none")
+      | none => (w, "no-store")
+    | _, _ => (w, "bad-op")
+  | ["tsetpolicy", sid, ns, pol] =>
+    match parseNat? sid, Bytes.ofHex ns, parsePolicy? pol with
+    | some sid, some ns, some pol =>
+      match w.getT sid with
+      | some t =>
+        match Tables.setDownloadPolicy t ns pol with
+        | some t' => (w.setT sid t', "ok")
+        | none => (w, "err:no-document")
+      | none => (w, "no-store")
+    | _, _, _ => (w, "bad-op")
+  | ["tgetpolicy", sid, ns] =>
+    match parseNat? sid, Bytes.ofHex ns with
+    | some sid, some ns =>
+      match w.getT sid with
+      | some t => (w, showPolicy (Tables.getDownloadPolicy t ns))
+      | none => (w, "no-store")
+    | _, _ => (w, "bad-op")
+  | ["policymatch", pol, key] =>
+    match parsePolicy? pol, Bytes.ofHex key with
+    | some pol, some key => (w, showBool (pol.matches key))
+    | _, _ => (w, "bad-op")
+  | ["thashes", sid] =>
+    match parseNat? sid with
+    | some sid =>
+      match w.getT sid with
+      | some t =>
+        let hs := (Tables.contentHashes t).map Bytes.toHex
+        let sorted := hs.toArray.qsort (· < ·) |>.toList
+        (w, "hashes " ++ toString sorted.length ++ " " ++ ";".intercalate sorted)
+      | none => (w, "no-store")
+    | none => (w, "bad-op")
+  | ["tnamespaces", sid] =>
+    match parseNat? sid with
+    | some sid =>
+      match w.getT sid with
+      | some t => (w, "namespaces " ++ ";".intercalate (t.namespaces.map fun (ns, kind, _) => ns.toHex ++ "=" ++ toString kind))
+      | none => (w, "no-store")
+    | none => (w, "bad-op")
+  | ["thasnews", sid, ns, heads] =>
+    match parseNat? sid, Bytes.ofHex ns, parseHeads? heads with
+    | some sid, some ns, some theirs =>
+      match w.getT sid with
+      | some t =>
+        let ours : Heads.H := (Tables.latestForEachAuthor t ns).foldl (fun h (a, ts, _) => Heads.insert h a ts) []
+        (w, "news " ++ toString (Heads.hasNewsFor theirs ours))
+      | none => (w, "no-store")
+    | _, _, _ => (w, "bad-op")
+  -- the specification of heads: greatest timestamp per author among the entries held
+  | ["sheads", sid, ns] =>
+    match parseNat? sid, Bytes.ofHex ns with
+    | some sid, some ns =>
+      match w.getT sid with
+      | some t =>
+        let h : Heads.H := (t.records.filter (·.ns == ns)).foldl (fun h e => Heads.insert h e.author e.ts) []
+        (w, "headts " ++ showHeadsMap h)
+      | none => (w, "no-store")
+    | _, _ => (w, "bad-op")
+  | ["hencode", lim, heads] =>
+    match (if lim = "-" then some none else (parseNat? lim).map some), parseHeads? heads with
+    | some lim, some h =>
+      match Heads.encode h lim with
+      | some b => (w, "ok " ++ b.toHex)
+      | none => (w, "err")
+    | _, _ => (w, "bad-op")
+  -- specification: an encoding never exceeds its limit
+  | ["hfits", _, _] => (w, "fits 1")
+  -- specification: what is kept is the longest newest-first prefix whose encoding fits
+  | ["hkept", lim, heads] =>
+    match (if lim = "-" then some none else (parseNat? lim).map some), parseHeads? heads with
+    | some lim, some h =>
+      let newestFirst := (Heads.sortTA (h.map (fun (a, ts) => (ts, a)))).reverse
+      let k := match lim with
+        | none => newestFirst.length
+        | some l => ((List.range (newestFirst.length + 1)).reverse.find?
+            (fun k => (Heads.encItems (newestFirst.take k)).length ≤ l)).getD 0
+      let kept : Heads.H := (newestFirst.take k).foldl (fun acc (ts, a) => Heads.insert acc a ts) []
+      (w, "ok " ++ showHeadsMap kept)
+    | _, _ => (w, "bad-op")
+  -- specification of the download decision, in the words of the property
+  | ["spolicymatch", pol, key] =>
+    match parsePolicy? pol, Bytes.ofHex key with
+    | some pol, some key =>
+      let filterMatches := fun (f : Tables.FilterKind) => match f with
+        | .pre p => decide (p <+: key)
+        | .exact k => decide (k = key)
+      let r := match pol with
+        | .everythingExcept fs => !fs.any filterMatches
+        | .nothingExcept fs => fs.any filterMatches
+      (w, showBool r)
+    | _, _ => (w, "bad-op")
+  | ["filtertext", tok, utf8] =>
+    match tok.splitOn "=", parseBool? utf8 with
+    | [k, h], some utf8 =>
+      match Bytes.ofHex h with
+      | some b =>
+        let f : Option Tables.FilterKind := if k = "x" then some (.exact b) else if k = "p" then some (.pre b) else none
+        match f with
+        | some f =>
+          let text := FilterText.display f utf8
+          let back := match FilterText.parse text with
+            | some (.exact b) => "ok x=" ++ b.toHex
+            | some (.pre b) => "ok p=" ++ b.toHex
+            | none => "err"
+          (w, text.toHex ++ " " ++ back)
+        | none => (w, "bad-op")
+      | none => (w, "bad-op")
+    | _, _ => (w, "bad-op")
+  | ["filterid", tok] => (w, "ok " ++ tok)
+  | ["filterparse", hx] =>
+    match Bytes.ofHex hx with
+    | some text =>
+      (w, match FilterText.parse text with
+        | some (.exact b) => "ok x=" ++ b.toHex
+        | some (.pre b) => "ok p=" ++ b.toHex
+        | none => "err")
+    | none => (w, "bad-op")
+  | ["hdecode", hx] =>
+    match Bytes.ofHex hx with
+    | some b =>
+      match Heads.decode b with
+      | some h => (w, "ok " ++ showHeadsMap h)
+      | none => (w, "err")
+    | none => (w, "bad-op")
   | _ => (w, "bad-op")
 
 partial def loop (hin hout : IO.FS.Stream) (w : World) : IO Unit := do
